@@ -30,7 +30,9 @@ GLOBAL_RNG_USERS = {'detector._nrays', 'detector._cosmic_ray', 'convolvable.smea
 
 def allowed(f, w):
     if w.param == f.params()[0][0] and f.cls is not None and (f.name == '__init__' or f.is_setter):
-        return True
+        # a constructor / setter (re)binds attributes of its object; writing *into* the array an attribute holds is something
+        # else: attributes keep the caller's own arrays (np.asarray), so that is a write to an array supplied earlier
+        return str(w.how).startswith('attribute store')
     a = ALLOW.get((f.key, w.param))
     if a is None:
         return False
@@ -94,6 +96,10 @@ def run(chk, repo, tier):
 
     # ---------------------------------------------------------------- C10-c
     common.seed_rules(chk, repo, eff, 'C10-c', GLOBAL_RNG_USERS)
+    # the documented user of the global generator among the convolutions draws from it only when asked to (angle=None):
+    # with a given angle - 0 included - the call is a pure function of its arguments
+    from .c19 import smear_direction_rule
+    smear_direction_rule(chk, repo, 'C10-c')
 
     # ---------------------------------------------------------------- C10-d
     mw = module_write_rule(repo, eff)
